@@ -42,7 +42,7 @@ FKEY = {'K1': ('\x00\x3b', 0x3b), 'K2': ('\x00\x3c', 0x3c), 'K3': ('\x00\x3d', 0
 
 
 def quick_runs(prop):
-    return 1500
+    return 3000
 
 
 ###############################################################################
@@ -89,7 +89,13 @@ def gen(rng, tier, prop):
     prog['main'] = main
     prog['subs'] = [_body(rng, evs, rng.randint(1, 4), 'ES') for _ in range(nsubs)]
     prog['handlers'] = {ev: _body(rng, evs, rng.randint(1, 5), 'ES', own=ev) for ev in evs}
+    # the first statement of a trap routine runs in the loop iteration that dispatched the trap:
+    # sometimes make it an error (trapped by ON ERROR, then RESUME NEXT)
+    prog['head_err'] = [ev for ev in evs if rng.random() < 0.15]
     prog['eh'] = _body(rng, evs, rng.randint(1, 3), 'S')
+    if rng.random() < 0.12:
+        # an error inside the error handler stops the program
+        prog['eh'].insert(rng.randint(0, len(prog['eh'])), ['E'])
     lines, ids0 = compile_prog(prog)
     nums = sorted(lines)
     # no occurrence is keyed on the first line of a trap routine: the engine executes it in the same
@@ -179,7 +185,7 @@ def compile_prog(prog):
             seq.append(('sub%d' % si, i, st))
         seq.append(('sub%d' % si, 'ret', ['RET']))
     for ev in evs:
-        seq.append(('h' + ev, 'head', ['P']))
+        seq.append(('h' + ev, 'head', ['E'] if ev in prog.get('head_err', ()) else ['P']))
         for i, st in enumerate(prog['handlers'].get(ev, [])):
             seq.append(('h' + ev, i, st))
         seq.append(('h' + ev, 'ret', ['RET']))
